@@ -179,7 +179,10 @@ def handle : List String → String
   | ["schv", msg, sig, pk] => match hexToList? msg, hexToList? sig, hexToList? pk with
     | some msg, some sig, some pk =>
       match parseSchnorrSig sig, parseXOnly pk with
-      | some (r, s), some q => b01 (schnorrVerify r s msg (serializeXOnly q))
+      | some (r, s), some q =>
+        -- answered from the Spec (defining equation R = s·G − e·P); the Model's step-by-step mirror of
+        -- schnorrVerify is exercised by the `schs` / `musig` lines
+        b01 (msg.length == 32 && Spec.schnorrValid (challenge (toBE 32 r) (serializeXOnly q) msg) r s q)
       | _, _ => "err"
     | _, _, _ => "bad-op"
   | ["schs", d, msg, aux] => match hexToNat? d, hexToList? msg with
